@@ -120,77 +120,67 @@ def run(F, R, tier):
     r1.floor(3)
 
     # ------------------------------------------------------------------ R2 compensation in purge_method
-    r2 = R.rule("C09-R2", "T11+T4", "purge_method: after remove_method_and_scope succeeded every error exit re-inserts the method under the scope it was found in, or reports UndoOperationFailed; the (key deletion, key-id deletion) table is complete")
+    r2 = R.rule("C09-R2", "T8+T11", "purge_method, evaluated abstractly with every storage/document call an oracle that may succeed or fail (the two deletions joined, each evaluated): on every path the net effect is all (method removed, key deleted, key id deleted → Ok) or nothing (method re-inserted under the scope it was found in, key and key id still/again present → the original error); the only other outcome is Err(UndoOperationFailed)")
+    OPQ2 = (r"JwkStorage::(generate|delete|insert|sign|exists)$|KeyIdStorage::(insert_key_id|get_key_id|delete_key_id)$|::insert_method$|::remove_method_and_scope$|"
+            r"MethodDigest::(new|pack)$|Storage::key_(id_)?storage$")
     for kind, fn in PURGE.items():
-        h = F.hir(fn)
-        if not r2.anchor(h, fn):
+        if not r2.anchor(F.hir(fn), fn):
             continue
-        env = H.Env(h)
-        tree, infos = L.exit_infos(h)
-        rms = [n for n in H.walk(H.root(h)) if n.get("k") == "mcall" and n["name"] == "remove_method_and_scope"]
-        if not r2.require(len(rms) == 1, (fn, "remove-call"), "expected one remove_method_and_scope call"):
-            continue
-        reins = [n for n in H.walk(H.root(h)) if n.get("k") == "mcall" and n["name"] == "insert_method"]
-        for ri in reins:
-            a = ri["args"]
-            o0 = H.origins(a[0], env)
-            o1 = H.origins(a[1], env)
-            ok = bool(o0) and all(o[0] == "call" and o[1].endswith("remove_method_and_scope") and o[-1] == "0" for o in o0) and bool(o1) and all(o[0] == "call" and o[1].endswith("remove_method_and_scope") and o[-1] == "1" for o in o1)
-            r2.site("%s: undo insert_method(method ← %s, scope ← %s)" % (kind, sorted(o[-1] for o in o0), sorted(map(str, o1))[:2]), ri["sp"])
-            r2.require(ok, (fn, "reinsert-args"), "%s: an undo re-inserts the method with %s instead of the (method, scope) pair returned by remove_method_and_scope: the method comes back in another scope" % (L.short(fn), sorted(map(str, o1))), ri["sp"])
-        errs = [e for e in infos if e.outcome.startswith("Err(")]
-        n_comp = 0
-        for e in errs:
-            after_rm = any(any(x is rms[0] for x in H.walk(s)) for s in e.pre)
-            if not after_rm:
+        tab = SR.Table(F, fn, opaque=OPQ2, rule=r2, inline_depth=5)
+        rows = {"ok": 0, "rolled-back": 0, "undo-failed": 0, "not-found": 0}
+        for q in tab.paths:
+            rms = q.calls(r"::remove_method_and_scope$")
+            if not r2.require(len(rms) == 1, (fn, "remove-call"), "expected one remove_method_and_scope call on every path"):
                 continue
-            is_undo_failed = e.outcome == "Err(UndoOperationFailed)"
-            blk = block_of_exit(tree, e.node)
-            re_ins = [x for s in blk for x in H.walk(s) if x.get("k") == "mcall" and x["name"] == "insert_method"]
-            r2.site("%s: error exit %s → %s" % (kind, e.outcome, "UndoOperationFailed" if is_undo_failed else ("re-inserts method" if re_ins else "NO COMPENSATION")), e.node.get("sp"))
-            r2.require(is_undo_failed or len(re_ins) == 1, (fn, "error-without-reinsert", e.outcome), "%s: error exit %s after the method was removed neither re-inserts it nor reports UndoOperationFailed" % (L.short(fn), e.outcome), e.node.get("sp"))
-            n_comp += 1
-        r2.require(n_comp == 6, (fn, "compensated-exits"), "%s: expected 6 error exits after removal (digest, get_key_id, and four in the deletion table), found %d" % (L.short(fn), n_comp))
-        # the 4-row table
-        ms = [m for m in H.walk(H.root(h)) if m.get("k") == "match" and m.get("src") == "normal" and H.strip(m["scrut"]).get("k") == "tup" and len(H.strip(m["scrut"])["es"]) == 2
-              and {H.local_name(x) for x in H.strip(m["scrut"])["es"]} == {"key_deletion_result", "key_id_deletion_result"}]
-        if r2.require(len(ms) == 1, (fn, "table"), "the (key_deletion_result, key_id_deletion_result) table was not found"):
-            rows = {}
-            for arm in ms[0]["arms"]:
-                ps = H.pat_str(arm["pat"])
-                fns = [x["name"] if x.get("k") == "mcall" else (H.fn_name(x) or "").rsplit("::", 1)[-1] for x in H.walk(arm["body"]) if x.get("k") in ("mcall", "call") and not x.get("ctor")]
-                outs = sorted({H.outcome(n_) for n_, _ in H.exits({"value": arm["body"]})})
-                rows[ps] = (outs, [f for f in fns if f in ("insert_method", "insert_key_id")])
-                r2.site("%s: row %s → %s %s" % (kind, ps, outs, rows[ps][1]), arm["body"].get("sp"))
-            want = {
-                "(Ok(_), Ok(_))": (["Ok"], []),
-                "(Ok(_), Err(_))": (["Err(UndoOperationFailed)"], []),
-                "(Err(_), Ok(_))": (["Err(KeyStorageError)", "Err(UndoOperationFailed)"], ["insert_key_id", "insert_method"]),
-                "(Err(_), Err(_))": (["Err(KeyIdStorageError)"], ["insert_method"]),
-            }
-            r2.require(rows == want, (fn, "table-rows"), "%s: the deletion table is %s, expected %s" % (L.short(fn), rows, want))
-            # (Err, Ok): the key id is re-inserted before the method, and only when that succeeded is the method re-inserted
-            for arm in ms[0]["arms"]:
-                if H.pat_str(arm["pat"]) == "(Err(_), Ok(_))":
-                    iff = H.find_first({"value": arm["body"]}, lambda n: n.get("k") == "if" and H.strip(n["cond"]).get("k") == "letexpr")
-                    ok = False
-                    if iff is not None and iff.get("else") is not None:
-                        ok = "insert_key_id" in [(H.fn_name(x) or "").rsplit("::", 1)[-1] for x in H.walk(H.strip(iff["cond"])["init"]) if x.get("k") == "call"] and \
-                            any(x.get("k") == "mcall" and x["name"] == "insert_method" for x in H.walk(iff["else"])) and not any(x.get("k") == "mcall" and x["name"] == "insert_method" for x in H.walk(iff["then"]))
-                        ik = [x for x in H.walk(H.strip(iff["cond"])["init"]) if x.get("k") == "call" and (H.fn_name(x) or "").endswith("insert_key_id")]
-                        if ik:
-                            ao = [H.origins(a_, env, extra=re.compile(r"::clone$")) for a_ in ik[0]["args"][1:]]
-                            ok = ok and all(o[0] == "call" and o[1].endswith("MethodDigest::new") for o in ao[0]) and all(o[0] == "call" and o[1].endswith("get_key_id") for o in ao[1])
-                    r2.require(ok, (fn, "row-err-ok"), "%s: row (key deletion failed, key-id deletion succeeded) does not re-insert the same (digest, key id) and then — only on success — the method" % L.short(fn))
-        # deletions use the key id recorded for this method's digest
-        for pat_, want_src in ((r"JwkStorage::delete$", "get_key_id"), (r"KeyIdStorage::delete_key_id$", "MethodDigest::new")):
-            for c in [n for n in H.walk(H.root(h)) if n.get("k") == "call" and re.search(pat_, H.fn_name(n) or "")]:
-                oo = H.origins(c["args"][1], env)
-                r2.require(bool(oo) and all(o[0] == "call" and o[1].endswith(want_src) for o in oo), (fn, "delete-arg", want_src), "%s: %s is not applied to the value obtained from %s" % (L.short(fn), L.short(H.fn_name(c)), want_src))
-        for c in [n for n in H.walk(H.root(h)) if n.get("k") == "call" and (H.fn_name(n) or "").endswith("MethodDigest::new")]:
-            oo = H.origins(c["args"][0], env)
-            r2.require(bool(oo) and all(o[0] == "call" and o[1].endswith("remove_method_and_scope") for o in oo), (fn, "digest-of-removed"), "the digest is not computed of the removed method")
-    r2.floor(28)
+            where = q.describe()[-200:]
+            if q.succeeded(rms[0]) is not True:
+                r2.require(SR.is_failure(q.ret) and len([e for e in q.events if e.kind == "call" and STORAGE_CALL.search(e.fn or "")]) == 0 and not q.calls(r"::insert_method$"), (fn, "effects-without-method"), "%s touches a store although the method was not found" % L.short(fn))
+                rows["not-found"] += 1
+                continue
+            RM = ("payload", rms[0].result.t, "Some", 0)
+            METHOD, SCOPE = ("field", RM, "0"), ("field", RM, "1")
+            md = q.calls(r"MethodDigest::new$")
+            for e in md:
+                r2.require(SR.pure(e.args[0], METHOD), (fn, "digest-of-removed"), "the digest is not computed of the removed method")
+            DG = ("payload", md[0].result.t, "Ok", 0) if md else None
+            gk = q.calls(r"KeyIdStorage::get_key_id$")
+            KID = ("payload", gk[0].result.t, "Ok", 0) if gk else None
+            for e in gk:
+                r2.require(DG is not None and SR.pure(e.args[1], DG), (fn, "delete-arg", "MethodDigest::new"), "get_key_id is not asked for this method's digest")
+            dk = q.calls(r"JwkStorage::delete$")
+            di = q.calls(r"KeyIdStorage::delete_key_id$")
+            ik = q.calls(r"KeyIdStorage::insert_key_id$")
+            ins = q.calls(r"::insert_method$")
+            for e in dk:
+                r2.require(KID is not None and SR.pure(e.args[1], KID), (fn, "delete-arg", "get_key_id"), "%s: JwkStorage::delete is not applied to the key id recorded for this method" % L.short(fn))
+            for e in di:
+                r2.require(DG is not None and SR.pure(e.args[1], DG), (fn, "delete-arg", "MethodDigest::new"), "%s: delete_key_id is not applied to this method's digest" % L.short(fn))
+            for e in ik:
+                r2.require(DG is not None and KID is not None and SR.pure(e.args[1], DG) and SR.pure(e.args[2], KID), (fn, "row-err-ok"), "%s: the key id re-inserted on an undo path is not the same (digest, key id)" % L.short(fn))
+            for e in ins:
+                r2.require(SR.pure(e.args[1], METHOD) and SR.pure(e.args[2], SCOPE), (fn, "reinsert-args"), "%s: an undo re-inserts the method with (%s, %s) instead of the (method, scope) pair returned by remove_method_and_scope: the method comes back in another scope" % (
+                    L.short(fn), sym.fmt(sym.term(e.args[1])), sym.fmt(sym.term(e.args[2]))))
+            # the ledger (1 = present)
+            M = 1 if ins else 0
+            K = 0 if any(q.succeeded(e) is True for e in dk) else 1
+            I = 0 if any(q.succeeded(e) is True for e in di) else 1
+            if any(q.succeeded(e) is True for e in ik):
+                I = 1
+            undecided = [e for e in dk + di if q.succeeded(e) is None]
+            if SR.is_success(q.ret) and not SR.is_failure(q.ret):
+                r2.require((M, K, I) == (0, 0, 0) and not undecided, (fn, "partial-success"), "%s returns Ok with method/key/key-id presence %s (a deletion failed, was not awaited or was undone): …%s" % (L.short(fn), (M, K, I), where))
+                rows["ok"] += 1
+            elif "UndoOperationFailed" in str(q.ret):
+                r2.require((M, K, I) != (1, 1, 1), (fn, "undo-report"), "UndoOperationFailed is reported although everything was restored")
+                rows["undo-failed"] += 1
+            else:
+                r2.require((M, K, I) == (1, 1, 1), (fn, "error-without-reinsert", SR.err_name(q.ret) or "?"), "%s: error exit %s leaves method/key/key-id presence %s — neither everything restored nor UndoOperationFailed: …%s" % (
+                    L.short(fn), SR.err_name(q.ret), (M, K, I), where))
+                rows["rolled-back"] += 1
+        r2.site("%s: fault table rows %s" % (kind, rows))
+        r2.require(not tab.paths or (rows["ok"] == 1 and rows["rolled-back"] >= 4 and rows["undo-failed"] >= 2 and rows["not-found"] == 1), (fn, "compensated-exits"),
+                   "%s: expected one success, the four restored failures (digest, get_key_id, key deletion, both deletions) and the two reported undo failures: %s" % (L.short(fn), rows))
+    r2.floor(2)
 
     # ------------------------------------------------------------------ R3 nothing removed is dropped
     r3 = R.rule("C09-R3", "T11", "everything remove_method_and_scope takes out of the document is returned to the caller (so that a failing purge_method can put it back)")
